@@ -205,9 +205,9 @@ def generate(seed, tier, idx=0):
             ops.append(["reg", t, val()])
             r = rng.random()
             if r < 0.07:
-                ops.append(["bad", rng.choice(["regress", "nan_time", "nan_value",
-                                               "str_value", "none_time", "huge_value",
-                                               "huge_time"])])
+                ops.append(["bad", rng.choice(["regress", "regress_ulp", "regress_rel", "nan_time",
+                                               "nan_value", "str_value", "none_time",
+                                               "huge_value", "huge_time"])])
             elif r < 0.10:
                 ops.append(["init"])
                 closed = False
@@ -215,7 +215,7 @@ def generate(seed, tier, idx=0):
                 ops.append(["query"])
             elif r < 0.19 and not closed:
                 # a closing call that must be refused (and leave the tally open)
-                ops.append(["badend", rng.choice(["regress", "nan", "str", "none"])])
+                ops.append(["badend", rng.choice(["regress", "regress_ulp", "nan", "str", "none"])])
             elif r < 0.25 and not closed:
                 t = t + (rng.choice([0, 0.5, 1, 4]) if not fine else rng.choice([0, 1e-6, 1e-7, 1.0]))
                 ops.append(["end", t])
@@ -364,8 +364,13 @@ def run(case):
                     # plain ints beyond the float range
                     "huge_value": (1.0 if kind == "weighted" else t_ok, 10 ** 400),
                     "huge_weight": (10 ** 400, 1.0), "huge_time": (10 ** 400, 1.0),
-                    "regress": ((last_t - 0.5) if last_t is not None else None, 1.0)}[b]
-            if b == "regress" and (last_t is None):
+                    "regress": ((last_t - 0.5) if last_t is not None else None, 1.0),
+                    # earlier by one ulp / by a relative 1e-13: still earlier
+                    "regress_ulp": (math.nextafter(last_t, -math.inf)
+                                    if last_t is not None else None, 1.0),
+                    "regress_rel": ((last_t - abs(last_t) * 1e-13)
+                                    if last_t is not None else None, 1.0)}[b]
+            if b.startswith("regress") and (last_t is None or not args[0] < last_t):
                 continue
             before = text(read(st))
             try:
@@ -402,7 +407,8 @@ def run(case):
         elif name == "badend":
             if closed_at is not None or last_t is None:
                 continue
-            arg = {"regress": last_t - 0.5, "nan": NANF, "str": "x", "none": None}[op[1]]
+            arg = {"regress": last_t - 0.5, "regress_ulp": math.nextafter(last_t, -math.inf),
+                   "nan": NANF, "str": "x", "none": None}[op[1]]
             before = text(read(st))
             try:
                 st.end_observations(arg)
